@@ -6,13 +6,15 @@ From NV.gen Require Import Gen_C01.
 Open Scope N_scope.
 
 Definition gen_rules : rules :=
-  Rules gen_follower_ack gen_follower_commit gen_stale_ack_ignored gen_vote_log_ok gen_prev_ok gen_commit_pick gen_commit_term_ok.
+  Rules gen_follower_ack gen_follower_commit gen_stale_ack_ignored gen_vote_log_ok gen_prev_ok gen_commit_pick gen_commit_term_ok
+        gen_entries_need_prev gen_gap_refused.
 
 (* what the harness observes of one real node: term, voted_for, role code (0 F, 1 C, 2 L),
    commit_index, log image *)
 Definition nobs := (N * option N * N * N * list entry)%type.
 Definition role_code (r : role) : N := match r with Follower => 0 | Candidate => 1 | Leader => 2 end.
-Definition obs_of (nd : node) : nobs := (term nd, voted nd, role_code (rl nd), commit nd, log nd).
+(* the implementation's log array is what is left after compaction: the model's log without its first `base` entries *)
+Definition obs_of (nd : node) : nobs := (term nd, voted nd, role_code (rl nd), commit nd, skipn (N.to_nat (base nd)) (log nd)).
 
 Definition log_eqb := list_eqb entry_eqb.
 Definition nobs_eqb (a b : nobs) : bool :=
@@ -34,13 +36,6 @@ Definition env_eqb (a b : N * N * msg) : bool :=
   let '(s, d, m) := a in let '(s', d', m') := b in N.eqb s s' && N.eqb d d' && msg_eqb m m'.
 
 (* ---------------- safety oracles over implementation observations ---------------- *)
-(* ghost state accumulated along a run *)
-Record ghost := Gh {
-  seen : list nobs;                 (* last observation of every node *)
-  leaders_seen : list (N * N);      (* (term, node) for every node observed as Leader *)
-  clog : list (entry * N)           (* globally committed prefix: entry, term of the first reporter *)
-}.
-
 Fixpoint set_nth_obs (l : list nobs) (i : nat) (x : nobs) : list nobs :=
   match l, i with [], _ => [] | _ :: t, O => x :: t | h :: t, S k => h :: set_nth_obs t k x end.
 
@@ -48,95 +43,9 @@ Fixpoint set_nth_obs (l : list nobs) (i : nat) (x : nobs) : list nobs :=
 Definition election_ok (ls : list (N * N)) (t i : N) : bool :=
   forallb (fun tj => negb (N.eqb (fst tj) t) || N.eqb (snd tj) i) ls.
 
-(* log matching between two logs: wherever both hold an entry of the same term at a position,
-   all earlier positions hold equal entries *)
-Fixpoint log_match_go (a b : list entry) (prefix_eq : bool) : bool :=
-  match a, b with
-  | x :: a', y :: b' =>
-      (if N.eqb (eterm x) (eterm y) then prefix_eq else true)
-      && log_match_go a' b' (prefix_eq && entry_eqb x y)
-  | _, _ => true
-  end.
-Definition log_match (a b : list entry) : bool := log_match_go a b true.
-
-(* state-machine safety: this node's committed prefix agrees with every entry already reported
-   committed by anyone; returns the (possibly extended) global committed log *)
-Fixpoint commit_merge (mine : list entry) (g : list (entry * N)) (t : N) : option (list (entry * N)) :=
-  match mine, g with
-  | [], _ => Some g
-  | x :: m', [] => match commit_merge m' [] t with Some r => Some ((x, t) :: r) | None => None end
-  | x :: m', (y, ty) :: g' =>
-      if entry_eqb x y then match commit_merge m' g' t with Some r => Some ((y, ty) :: r) | None => None end
-      else None
-  end.
-
-(* leader completeness: a leader of term t holds every entry reported committed under a term < t *)
-Fixpoint leader_complete (lg : list entry) (g : list (entry * N)) (t : N) : bool :=
-  match g with
-  | [] => true
-  | (y, ty) :: g' =>
-      match lg with
-      | x :: l' => (if N.ltb ty t then entry_eqb x y else true) && leader_complete l' g' t
-      | [] => (if N.ltb ty t then false else true) && leader_complete [] g' t
-      end
-  end.
-
-(* committed index within the log (a node never reports more committed than it holds) *)
-Definition oracle_step (g : ghost) (i : N) (o : nobs) : option ghost :=
-  let '(t, v, r, c, l) := o in
-  let seen' := set_nth_obs (seen g) (N.to_nat i) o in
-  let ls' := if N.eqb r 2 then (t, i) :: leaders_seen g else leaders_seen g in
-  if negb (if N.eqb r 2 then election_ok (leaders_seen g) t i else true) then None
-  else if negb (forallb (fun o' => let '(_, _, _, _, l') := o' in log_match l l') seen') then None
-  else if N.ltb (llen l) c then None
-  else match commit_merge (firstn (N.to_nat c) l) (clog g) t with
-       | None => None
-       | Some cl =>
-           if negb (if N.eqb r 2 then leader_complete l cl t else true) then None
-           else Some (Gh seen' ls' cl)
-       end.
-
-(* ---------------- schedule case ---------------- *)
-(* per step: the observation of the touched node after the step and the envelopes the step
-   added to the pool *)
-Definition step_obs := (nobs * list (N * N * msg))%type.
-Definition sched_case := (config * list gop * list step_obs)%type.
-
-
-(* walk the schedule: verdict *)
-Fixpoint walk (cfg : config) (s : sys) (g : ghost) (ipool : list (N * N * msg))
-              (ops : list gop) (os : list step_obs) (mismatch : bool) : N :=
-  match ops, os with
-  | [], [] => if mismatch then V_MISMATCH else V_OK
-  | o :: ops', (ob, out) :: os' =>
-      (* touched node according to the implementation's own pool *)
-      let touched :=
-        match o with
-        | GElect i | GPreVote i | GRequestVotes i | GHeartbeat i | GRestart i => i
-        | GPropose i _ _ | GTimeoutNow i _ => i
-        | GDeliver k _ => match nth_error ipool (N.to_nat k) with Some (_, dst, _) => dst | None => 0 end
-        end in
-      match oracle_step g touched ob with
-      | None => V_VIOLATION
-      | Some g' =>
-          let '(s', mi) := gstep cfg gen_rules s o in
-          let added := skipn (length (pool s)) (pool s') in
-          let agree := N.eqb mi touched && nobs_eqb (obs_of (nth_node (nodes s') mi)) ob
-                       && list_eqb env_eqb added out in
-          walk cfg s' g' (ipool ++ out) ops' os' (mismatch || negb agree)
-      end
-  | _, _ => 9
-  end.
-
-Definition check_sched (c : sched_case) : N :=
-  let '(cfg, ops, os) := c in
-  let s0 := init_sys cfg in
-  walk cfg s0 (Gh (map obs_of (nodes s0)) [] []) [] ops os false.
-
 (* ---------------- index-aware oracles: log images that start after a compaction point ----------------
    A compacted node shows only the suffix of its log; entries carry their own index, so every clause is
-   evaluated by index.  Used for schedules with finalize / compact steps, which the executable model does not
-   contain (oracle only, no correspondence). *)
+   evaluated by index. *)
 Fixpoint consecutive (l : list entry) : bool :=
   match l with
   | a :: ((b :: _) as r) => N.eqb (eidx b) (eidx a + 1) && consecutive r
@@ -196,6 +105,43 @@ Definition oracle_step_ix (g : ghost_ix) (i : N) (o : nobs) : option ghost_ix :=
            if negb (if N.eqb r 2 then leader_complete_ix l m t else true) then None
            else Some (GhI seen' ls' m)
        end.
+
+(* ---------------- schedule case ---------------- *)
+(* per step: the observation of the touched node after the step and the envelopes the step
+   added to the pool *)
+Definition step_obs := (nobs * list (N * N * msg))%type.
+Definition sched_case := (config * list gop * list step_obs)%type.
+
+
+(* walk the schedule: verdict *)
+Fixpoint walk (cfg : config) (s : sys) (g : ghost_ix) (ipool : list (N * N * msg))
+              (ops : list gop) (os : list step_obs) (mismatch : bool) : N :=
+  match ops, os with
+  | [], [] => if mismatch then V_MISMATCH else V_OK
+  | o :: ops', (ob, out) :: os' =>
+      (* touched node according to the implementation's own pool *)
+      let touched :=
+        match o with
+        | GElect i | GPreVote i | GRequestVotes i | GHeartbeat i | GRestart i | GCompact i => i
+        | GPropose i _ _ | GTimeoutNow i _ | GFinalize i _ => i
+        | GDeliver k _ => match nth_error ipool (N.to_nat k) with Some (_, dst, _) => dst | None => 0 end
+        end in
+      match oracle_step_ix g touched ob with
+      | None => V_VIOLATION
+      | Some g' =>
+          let '(s', mi) := gstep cfg gen_rules s o in
+          let added := skipn (length (pool s)) (pool s') in
+          let agree := N.eqb mi touched && nobs_eqb (obs_of (nth_node (nodes s') mi)) ob
+                       && list_eqb env_eqb added out in
+          walk cfg s' g' (ipool ++ out) ops' os' (mismatch || negb agree)
+      end
+  | _, _ => 9
+  end.
+
+Definition check_sched (c : sched_case) : N :=
+  let '(cfg, ops, os) := c in
+  let s0 := init_sys cfg in
+  walk cfg s0 (GhI (map obs_of (nodes s0)) [] []) [] ops os false.
 
 (* a schedule with compaction steps: per step the touched node and its observation *)
 Definition compact_case := (N * list (N * nobs))%type.
